@@ -1,4 +1,5 @@
 """C02 — serialization emits valid JSON denoting the tree; parse(serialize(T)) = T; flags only change whitespace."""
+import os
 import random
 import re
 
@@ -155,8 +156,12 @@ def run(tier, seed):
     bdir = build.build("asan")
     chk = core.Check(PID, tier, seed)
     ntrees, nd = (16000, 2 ** 19) if tier == "quick" else (100000, 2 ** 21)
+    rd = core.record_dir(PID) if tier == "thorough" else None
     sh = core.parallel(shard_fn, seed=seed, tier=tier, exe=bdir + "/jcdrv", ntrees=ntrees, ndoubles=nd)
     chk.absorb(sh)
+    if rd:
+        os.environ.pop("VF_RECORD_DIR", None)
+        core.memcheck_recorded(chk, build.build("plain"), rd)
     chk.rule = ("trees built through the API (strings over all 256 byte values incl. NUL/control/invalid UTF-8, int64 and uint64 representations on the 2^31/2^63/2^64 lattices, doubles from "
                 "random finite bit patterns / special values / retained number text, nesting <= 40) serialized under all 64 flag sets: each distinct text is parsed by the independent reference parser "
                 "(colour escapes stripped) and must denote the tree; reported length = strlen = byte count; json-c re-parse must be json_object_equal and re-serialize to the same bytes; "
